@@ -104,3 +104,27 @@ package generic
 //@   noverify
 //@   requires RI(d.Channel.Q) && d.Channel.PromptSearchDepth >= 0
 //@   modifies sent, alloc(), optlog
+
+// ---- C18: which callback runs, with what, and what happens next ------------------------------------------------------------
+// trig(cb, b): the trigger predicate of check (its verified postcondition); cacheOK: the lower-casing caches are coherent
+//@ spec trig(c *Callback, b []byte) bool := (((c.Contains != "" && contains(c.Insensitive ? lower(b) : b, c.Insensitive ? lower(c.Contains) : c.Contains)) || (c.ContainsRe != nil && reMatch(c.ContainsRe, c.Insensitive ? lower(b) : b))) && !(c.NotContains != "" && contains(c.Insensitive ? lower(b) : b, c.Insensitive ? lower(c.NotContains) : c.NotContains)))
+// cbRuns counts executions of user callbacks; recursed records that the operation went on waiting after a callback
+//@ ghost cbRuns int
+//@ ghost recursed bool
+// a user callback may do anything to the driver and to the callback list (A-CALLBACK); it is counted
+//@ func dyn:generic.Callback.Callback
+//@   trusted
+//@   modifies everything
+//@   ensures cbRuns == old(cbRuns) + 1
+//@ func (*Driver).handleCallbacks
+//@   noverify
+//@   modifies everything
+//@   ensures recursed
+//@ func (*Driver).executeCallback [C18]
+//@   requires 0 <= i && i < len(callbacks) && callbacks[i] != nil && !recursed
+//@   ensures #once-never-runs-twice old(callbacks[i].Once) && old(callbacks[i].triggered) ==> result.1 != nil && isErr(result.1, util.ErrOperationError) && cbRuns == old(cbRuns) && !recursed
+//@   at call dyn#1 assert #callback-runs-with-the-accumulated-output arg1 == b && arg0 == d && cb == callbacks[i] && (cb.Once ==> cb.triggered && !old(callbacks[i].triggered))
+//@   at call handleCallbacks#1 assert #waiting-goes-on-only-when-not-complete !cb.Complete && arg0 === callbacks && arg2 == fb
+//@   at call handleCallbacks#1 assert #reset-output-and-next-timeout arg1 == (cb.ResetOutput ? "" : b) && arg3 == (cb.NextTimeout != 0 ? cb.NextTimeout : t)
+//@   ensures #complete-ends-the-operation-with-the-whole-dialogue result.1 == nil && !recursed ==> result.0 == fb
+//@   ensures #a-failing-callback-ends-the-operation-with-its-error !recursed && result.1 != nil ==> len(result.0) == 0
